@@ -784,3 +784,35 @@ func c18CompileCauses(view *c18Pkg, restricted map[string]bool) []string {
 	}
 	return causes
 }
+
+// c18MissingImports: package qualifiers mentioned by the generated declarations (bindings, wrapper
+// fields and methods) for which the file has no import. Decided on the syntax alone, independently
+// of the type checker: an identifier X in X.Sel that is not declared in the file must be the name of
+// an imported package.
+func c18MissingImports(f *ast.File, imp types.Importer) []string {
+	names := map[string]bool{}
+	for _, im := range f.Imports {
+		p, _ := strconv.Unquote(im.Path.Value)
+		if im.Name != nil {
+			names[im.Name.Name] = true
+			continue
+		}
+		if pk, err := imp.Import(p); err == nil {
+			names[pk.Name()] = true
+		} else {
+			names[p[strings.LastIndex(p, "/")+1:]] = true
+		}
+	}
+	missing := map[string]bool{}
+	ast.Inspect(f, func(n ast.Node) bool {
+		se, ok := n.(*ast.SelectorExpr)
+		if !ok {
+			return true
+		}
+		if id, ok := se.X.(*ast.Ident); ok && id.Obj == nil && id.Name != "W" && !names[id.Name] {
+			missing[id.Name] = true
+		}
+		return true
+	})
+	return sortedKeys(missing)
+}
